@@ -84,6 +84,11 @@ fn check_crit(what: &str, dof: f64, c_obs: f64, obs_err: f64, conf: &Conf, ctx: 
         if d <= tol {
             ok = true;
             obs.headroom(&format!("{what}/t"), d / tol, || json!({"dof": dof, "conf": conf}));
+            // absolute CDF error by dof bucket, away from the |c| << 1 region (measurement of the dependency)
+            if c_obs.abs() >= 0.05 {
+                let b = if dof < 100.0 { "dof<1e2" } else if dof < 1000.0 { "dof<1e3" } else if dof < 10000.0 { "dof<1e4" } else if dof < 30000.0 { "dof<3e4" } else { "dof<1e5" };
+                obs.headroom(&format!("abs_cdf_error(not a ratio)/{what}/{b}"), d, || json!({"dof": dof, "conf": conf, "c": c_obs}));
+            }
         } else {
             msg = format!("t CDF with {dof} dof at the implied critical value {c_obs:.15e} is {f:.15}, target {target:.15} (diff {d:e} > tol {tol:e})");
         }
@@ -102,6 +107,27 @@ fn check_crit(what: &str, dof: f64, c_obs: f64, obs_err: f64, conf: &Conf, ctx: 
     let branch = if dof < POPULATION_LIMIT { "t" } else { "normal" };
     ensure!(ok, format!("C06/{what}/{branch}/{kn}{}", below(conf)), "{}: {msg}", ctx());
     Ok(())
+}
+
+/// replay of one random (n, confidence) query
+pub fn random_replay(n: u64, conf: &Conf, obs: &mut Obs) -> PResult {
+    let (st, sum) = probe_state(n, true);
+    let nf = n as f64;
+    let mean = sum as f64 / nf;
+    let var = (nf * nf - (sum * sum) as f64) / (nf * (nf - 1.0));
+    let se = (var / nf).sqrt();
+    let iv = match call(|| st.ci_mean(conf.get())) {
+        Out::Ok(i) => i,
+        o => return crate::engine::fail("C06/probe_rejected", o.describe()),
+    };
+    let (_, lo, hi) = bounds(&iv);
+    let c_obs = match conf.kind {
+        0 => 0.5 * (hi - lo) / se,
+        1 => (mean - lo) / se,
+        _ => (hi - mean) / se,
+    };
+    let obs_err = 8.0 * f64::EPSILON * (c_obs.abs() + (mean.abs() + lo.abs().min(hi.abs())) / se);
+    check_crit("mean_random", nf - 1.0, c_obs, obs_err, conf, &|| format!("n={n} (merged), {conf:?}, interval {iv:?}"), obs)
 }
 
 pub fn probe_case(p: &Probe, obs: &mut Obs) -> PResult {
@@ -308,6 +334,47 @@ pub fn run(run: &mut Run) {
     run.par(shards, |sh, obs| {
         crate::engine::prop_on(obs, "unpaired", cases / shards as u32, crate::engine::mix(seed, "shard", sh as u64), unpaired_strategy(), unpaired_case);
     });
+    // random (dof, level) pairs over the whole t range: isolated failures of the quantile (narrow bands of p at
+    // particular dof) can only be met by volume
+    let n_rand = run.tier.pick(200_000usize, 40_000_000);
+    let rshards = 256usize;
+    let rseed = run.seed_for("random_dof_level", 0);
+    run.par(rshards, |sh, obs| {
+        let mut g = crate::engine::SplitMix(crate::engine::mix(rseed, "shard", sh as u64));
+        let per = n_rand / rshards;
+        let mut cached: Option<(u64, Arithmetic<f64>, i64)> = None;
+        for i in 0..per {
+            // a new size every 8 draws (building the probe state costs more than a query)
+            if i % 8 == 0 || cached.is_none() {
+                let n = 2 + g.below(99_999);
+                let (st, sum) = probe_state(n, true);
+                cached = Some((n, st, sum));
+            }
+            let (n, st, sum) = cached.as_ref().unwrap();
+            let kind = (g.below(3)) as u8;
+            let l = 0.001 + 0.9989 * g.unit();
+            let conf = Conf::new(kind, l);
+            let nf = *n as f64;
+            let mean = *sum as f64 / nf;
+            let var = (nf * nf - (*sum * *sum) as f64) / (nf * (nf - 1.0));
+            let se = (var / nf).sqrt();
+            obs.eval();
+            let Out::Ok(iv) = call(|| st.ci_mean(conf.get())) else { continue };
+            let (_, lo, hi) = bounds(&iv);
+            let c_obs = match kind {
+                0 => 0.5 * (hi - lo) / se,
+                1 => (mean - lo) / se,
+                _ => (hi - mean) / se,
+            };
+            let obs_err = 8.0 * f64::EPSILON * (c_obs.abs() + (mean.abs() + lo.abs().min(hi.abs())) / se);
+            let r = check_crit("mean_random", nf - 1.0, c_obs, obs_err, &conf, &|| format!("n={n} (merged), {conf:?}, interval {iv:?}"), obs);
+            if let Err(f) = r {
+                obs.report("mean_random", || json!({"n": n, "conf": conf}), &f);
+            }
+        }
+        obs.nontrivial_enum(per as u64);
+        obs.class("mean/random-dof-level");
+    });
     // z implied by proportion intervals
     for (n, k) in [(20u64, 7u64), (50, 11), (400, 37), (1000, 800), (12, 3)] {
         for &l in LEVELS.iter() {
@@ -319,13 +386,18 @@ pub fn run(run: &mut Run) {
     for c in ["mean/appended/dof<10", "mean/appended/dof<2000", "mean/merged/dof~1e5", "mean/merged/dof>1e5", "mean/merged/dof<1e5", "unpaired/dof1-4", "unpaired/dof4-100", "unpaired/dof100-1e5", "unpaired/one-constant-sample", "proportion_z"] {
         run.require_class(c);
     }
-    run.assumptions.push("'equals' is checked within cdf_tol(dof, c) = 8 (2e-14 + 1.5e-15 dof^2) + 0.4 min(4e-13 dof / (2|c|), sqrt(4e-13 dof)) on the t branch and 2e-15 on the normal branch: the measured accuracy envelope of statrs 0.18's inverse CDF (DESIGN §4.3); slips inside that envelope are invisible".into());
+    run.assumptions.push("'equals' is checked within cdf_tol(dof, c) = 8 (2e-14 + 1e-15 dof) + 0.4 min(4e-13 dof / (2|c|), sqrt(4e-13 dof)) on the t branch and 2e-15 on the normal branch: the measured accuracy envelope of statrs 0.18's inverse CDF (DESIGN §4.3); slips inside that envelope are invisible".into());
     run.assumptions.push("within 2 of 100 000 degrees of freedom either branch is accepted".into());
 }
 
 pub fn replay(sub: &str, v: &Value, obs: &mut Obs) -> Option<PResult> {
     Some(match sub {
         "mean" | "mean_merged" => probe_case(&de(v), obs),
+        "mean_random" => {
+            let n = v["n"].as_u64().unwrap_or(2);
+            let conf: Conf = de(&v["conf"]);
+            random_replay(n, &conf, obs)
+        }
         "unpaired" => unpaired_case(&de(v), obs),
         "proportion_z" => prop_case(&de(v), obs),
         _ => return None,
